@@ -11,8 +11,8 @@
 //     base-26 (linked to push_column's proved contract by lemma_letters_unique), `dec_str` = decimal numeral (trusted `format!("{}", u32)`).
 //   [MS-XLS] 2.4.150 Lbl, 2.4.105 ExternSheet, 2.5.277 XTI, 2.4.271 SupBook: `lbls_of` (one entry per Lbl record, name of cch characters
 //     decoded with the code page in force, formula = the cce bytes behind the name), `xtis_of` (first cXTI entries of every ExternSheet
-//     record), `final_text` ("<BoundSheet8 name of XTI[ixti].itabFirst>!<text>", "#REF" when out of range), `xti_internal` (iSupBook
-//     designates the self-referencing SupBook).
+//     record), `final_text` ("<BoundSheet8 name of XTI[ixti].itabFirst>!<text>" for an XTI entry of the self-referencing SupBook, "#REF"
+//     when out of range or when the entry designates another SupBook), `xti_internal` (iSupBook designates the self-referencing SupBook).
 //   [MS-OVBA] 2.3.4.2.2 PROJECTREFERENCES: `ref_walk` = grammar of the reference array (REFERENCENAME 0x0016 + 0x003E, REFERENCEORIGINAL 0x0033,
 //     REFERENCECONTROL 0x002F .. 0x0030 .., REFERENCEREGISTERED 0x000D, REFERENCEPROJECT 0x000E, ended by PROJECTMODULES 0x000F) yielding the
 //     events Name / Libid in stream order; `ev_names`; `refs_fold` (a Name starts a reference, a libid with a description re-describes the
@@ -23,8 +23,8 @@
 //   C16.xls_defined_names_one_per_lbl_in_order (+ lbl_records_collected_in_order, xti_table_collected_in_order,
 //   defined_name_prefixed_with_its_sheet); C18.reference_names_in_order, reference_descriptions_from_their_libids,
 //   reference_array_wellformed_if_ok, reference_array_consumed (+ skip_*, var_record*, check_*record* of the cursor helpers).
-// Registered finding (findings/names.json): C16 XTI.iSupBook ignored: external references listed under an own sheet (1 marker assertion).
-//   Fixed: C06 first token sliced without length check; C16 relative flags of the column field not decoded.
+// No registered finding. Fixed: C06 first token sliced without length check; C16 relative flags of the column field not decoded;
+//   C16 XTI.iSupBook ignored (external references were listed under an own sheet).
 // parse_workbook is verified without hypothesis (its former `requires wb_hyp` is gone: truncated CodePage / Date1904 / ExternSheet / Lbl
 //   records and sheet positions beyond the stream are rejected with Err by the current text); the name / reference of an Lbl record is
 //   pinned down for records that are exactly their fields (`lbl_wf`). Reference::from_stream needs no hypothesis either.
